@@ -56,7 +56,16 @@ def rich_ro(rng, n_stories, placeholders=False, xrefs=False):
 
 
 def metadata_cases(rng):
-    ro = to_text(rich_ro(rng, 3))
+    yield from metadata_cases_on(rng, to_text(rich_ro(rng, 3)), 'two schemas')
+    # a block without any mosSchema tag, and one with a blank one, in front of the others
+    d = rich_ro(rng, 2)
+    rc = d.find('roCreate')
+    rc.insert(2, E('mosExternalMetadata', E('mosScope', text='PLAYLIST'), E('mosPayload', E('owner', text='no schema tag', dept='news'))))
+    rc.insert(3, E('mosExternalMetadata', E('mosSchema'), E('mosPayload', E('owner', text='blank schema'))))
+    yield from metadata_cases_on(rng, to_text(d), 'schema-less block first')
+
+
+def metadata_cases_on(rng, ro, ro_kind):
     md = lambda schema, owner: E('mosExternalMetadata', *( [E('mosSchema', text=schema)] if schema != ABSENT else []),
                                  E('mosPayload', E('Owner', text=owner)))
     for kids, name in [([E('roSlug', text='New')], 'slug'),
@@ -69,7 +78,7 @@ def metadata_cases(rng):
                        ([E('roChannel', text='1'), E('roChannel', text='2')], 'new tag twice'),
                        ([E('roSlug', text='s'), md('http://schema/one', 'x'), E('roEdStart', text='2020-01-01T00:00:00')], 'several'),
                        ([], 'empty')]:
-        yield {'ro': ro, 'msg': to_text(metadata_replace(7, kids)), 'meta': {'cls': 'MetaDataReplace', 'carried': name}}
+        yield {'ro': ro, 'msg': to_text(metadata_replace(7, kids)), 'meta': {'cls': 'MetaDataReplace', 'carried': name, 'ro_kind': ro_kind}}
     yield {'ro': ro, 'msg': to_text(ready_to_air(8)), 'meta': {'cls': 'ReadyToAir'}}
     yield {'ro': ro, 'msg': to_text(ro_delete(9)), 'meta': {'cls': 'RunningOrderEnd'}}
 
